@@ -47,8 +47,17 @@ SETLESS_FORM = Contract(
 
 
 def rebridge_block(fn):
-    loops = [n for n in ast.walk(fn) if isinstance(n, ast.For) and isinstance(n.target, ast.Name) and n.target.id == "old_bridge"]
-    return [loops[0]] if len(loops) == 1 else []
+    """the statements that follow `old_bridges = ...` in the same body (in the current source: the re-bridging loop)"""
+    for n in ast.walk(fn):
+        body = getattr(n, "body", None)
+        for field in ("body", "orelse"):
+            stmts = getattr(n, field, None)
+            if not isinstance(stmts, list):
+                continue
+            for i, s in enumerate(stmts):
+                if isinstance(s, ast.Assign) and ast.unparse(s.targets[0]) == "old_bridges":
+                    return stmts[i + 1:]
+    return []
 
 
 def queue_block(fn):
@@ -87,8 +96,8 @@ REBRIDGE = Contract(
         # ... and the new clone joins them
         ("clone_adopts_the_shared_registers", f"forall(old_bridges, lambda b: {SHARE} and b in child._bridged_nodes)"),
     ],
-    frame=BRIDGE.frame, props=["C09"],
-    assumes=["extracted block: the re-bridging loop of a newly created clone; bridge_with_node by its proved contract"],
+    frame=BRIDGE.frame, props=["C09", "C04"],
+    assumes=["extracted block: the re-bridging statements of a newly created clone; bridge_with_node by its proved contract"],
 )
 
 QUEUE = Contract(
